@@ -185,6 +185,26 @@ class Probe(SourceProxy):
         global_probes.remove(self)
         self._uninstall_tooling()
 
+    def __exit__(self, exc_type=None, exc=None, tb=None):
+        if self._root is not self:
+            self._root.__exit__(exc_type, exc, tb)
+            return
+
+        # A subscriber may raise when the stream completes (e.g. min() of an
+        # empty stream with no error handler): complete the others and take
+        # the probe down regardless, then let the first error through.
+        error = None
+        for obs in self._observers:
+            try:
+                obs.on_completed()
+            except Exception as e:
+                if error is None:
+                    error = e
+        self._observers.clear()
+        self._exit()
+        if error is not None:
+            raise error
+
     def activate(self):
         """Activate this probe."""
         self.__enter__()
